@@ -68,6 +68,7 @@ type muxConc struct {
 	Gates      bool   `json:"gates"`    // park goroutines at the labelled schedule points
 	TimerEp    string `json:"timer_ep"` // endpoint whose inactivity timer is live ("" = none)
 	Late       int    `json:"late"`     // number of highest-numbered connections the client adds later
+	FaultCut   int    `json:"fault_cut"` // byte-offset class at which a connection reset hits the record in flight
 }
 
 type muxCall struct {
@@ -113,6 +114,13 @@ type muxWorld struct {
 	addCall   *muxCall
 	timerQ    []time.Time
 	prevTimer int
+	poolSize  int // connections the model has in the client's pool
+	curEp     string // endpoint whose call the harness is executing (the pick hook has no session identity)
+	faultCut  int    // how much of the head record a failing connection still delivers: 0 none, 1 inside the header, 2 inside the body, 3 all but the tail
+	leftover  muxVerdict
+	closedOK  map[string]map[int]bool // Stream.Close returned nil at e for stream s
+	closeAny  map[string]map[int]bool // Stream.Close was called at e for stream s
+	abnormal  bool                    // a session close, fault or timer step occurred
 }
 
 const muxIdle = 30 * time.Second
@@ -220,6 +228,9 @@ func muxNewWorld(conc muxConc) (*muxWorld, error) {
 		}
 		w.sesh["s"].AddConnection(common.NewTLSConn(l.End(1)))
 	}
+	w.poolSize = conc.NC - conc.Late
+	w.closedOK = map[string]map[int]bool{"c": {}, "s": {}}
+	w.closeAny = map[string]map[int]bool{"c": {}, "s": {}}
 	w.gateCh = map[string]chan struct{}{}
 	for _, p := range muxGatePoints {
 		w.gateCh[p] = make(chan struct{})
@@ -236,6 +247,14 @@ func muxNewWorld(conc muxConc) (*muxWorld, error) {
 	verifhook.SetPick(func(n uint32) (uint32, bool) {
 		w.pickMu.Lock()
 		defer w.pickMu.Unlock()
+		if w.curEp == "c" && w.addCall != nil && !w.addCall.finished() && int(n) > w.poolSize {
+			// an AddConnection is between its two steps and the code already offers more ids than the model
+			// has connections: take the newest id, as the random draw eventually would
+			if len(w.picks) > 0 {
+				w.picks = w.picks[1:]
+			}
+			return n - 1, true
+		}
 		if len(w.picks) == 0 {
 			w.pickMiss++
 			return 0, false
@@ -269,6 +288,20 @@ func (w *muxWorld) shutdown() {
 		l.End(0).Close()
 		l.End(1).Close()
 	}
+	// both sessions are closed now: every call that was parked on them must have returned
+	synctest.Wait()
+	for _, e := range []string{"c", "s"} {
+		for sid, call := range w.blockedR[e] {
+			if !call.finished() {
+				w.leftover = muxVerdict{"read-blocked", fmt.Sprintf("a Read parked on stream %d of %s is still blocked after both sessions were closed", sid, e)}
+				w.strm[e][sid].SetReadDeadline(time.Now().Add(-time.Second)) // let the goroutine go so that the bubble can end
+			}
+		}
+	}
+	if w.blockedA != nil && !w.blockedA.finished() {
+		w.leftover = muxVerdict{"accept-blocked", "an Accept is still blocked after the session was closed"}
+	}
+	synctest.Wait()
 }
 
 func (w *muxWorld) async(label string, f func(c *muxCall)) *muxCall {
@@ -347,13 +380,22 @@ func muxRun(b *muxBehaviour, conc muxConc) (v muxVerdict, table []string, diverg
 	if err != nil {
 		return muxVerdict{}, nil, "setup: " + err.Error()
 	}
-	defer w.shutdown()
+	defer func() {
+		w.shutdown()
+		if v.Key == "" && w.leftover.Key != "" {
+			v = w.leftover
+			table = append(w.table, "shutdown: "+w.leftover.What)
+		}
+	}()
 	synctest.Wait()
 	steps := b.Steps
 	for i := 0; i < len(steps); i++ {
 		ev := steps[i].Ev
 		now := time.Now()
 		if vv := w.step(steps, i); vv.Key != "" || w.diverged != "" {
+			if vv.Key == "" {
+				vv = w.judgeAfterDivergence()
+			}
 			return vv, w.table, w.diverged
 		}
 		if conc.TimerEp != "" {
@@ -374,6 +416,9 @@ func muxRun(b *muxBehaviour, conc muxConc) (v muxVerdict, table []string, diverg
 		last := (i+1 == len(steps) && b.Settled) || (i+1 < len(steps) && !muxInternal(steps[i+1].Ev.A, steps, i+1))
 		if last {
 			if vv := w.compareObs(i, ev, steps[i].Obs); vv.Key != "" || w.diverged != "" {
+				if vv.Key == "" {
+					vv = w.judgeAfterDivergence()
+				}
 				return vv, w.table, w.diverged
 			}
 		}
@@ -382,6 +427,75 @@ func muxRun(b *muxBehaviour, conc muxConc) (v muxVerdict, table []string, diverg
 		return vv, w.table, ""
 	}
 	return muxVerdict{}, w.table, ""
+}
+
+// judgeAfterDivergence: the code has left the model's path (for instance it put a different number of records
+// on the wire). Step alignment is lost, so only what the statements say about the END state is judged: deliver
+// everything in flight, then every stream must yield a prefix of what the peer wrote on it - all of it if nothing
+// abnormal happened - and, where the peer closed the stream successfully, the broken-stream error afterwards.
+func (w *muxWorld) judgeAfterDivergence() muxVerdict {
+	w.gateOn = false
+	for _, p := range muxGatePoints {
+		for w.release(p) {
+		}
+	}
+	for _, l := range w.links {
+		l.ReleaseAll()
+	}
+	synctest.Wait()
+	time.Sleep(time.Millisecond)
+	synctest.Wait()
+	// hand every queued stream to the application
+	for n := len(w.sesh["s"].acceptCh); n > 0 && !w.sesh["s"].IsClosed(); n-- {
+		if conn, err := w.sesh["s"].Accept(); err == nil {
+			w.strm["s"][int(conn.(*Stream).id)] = conn.(*Stream)
+		}
+	}
+	for _, e := range []string{"c", "s"} {
+		peer := muxPeer(e)
+		for sid, st := range w.strm[e] {
+			if call := w.blockedR[e][sid]; call != nil {
+				continue // a reader is parked there; its result was or will be judged by the shutdown check
+			}
+			all := w.unitSizes[peer][sid]
+			off := w.readOff[e][sid]
+			if off > len(all) {
+				continue
+			}
+			var units []int
+			for u := off + 1; u <= len(all); u++ {
+				units = append(units, u)
+			}
+			want := w.unitBytes(peer, sid, units)
+			var data []byte
+			var err error
+			call := w.async("judge", func(c *muxCall) { c.data, c.err = w.collect(st, nil, len(want)+1) })
+			synctest.Wait()
+			time.Sleep(3 * time.Millisecond)
+			synctest.Wait()
+			if !call.finished() {
+				continue
+			}
+			data, err = call.data, call.err
+			w.logf("judge %s/%d: %d bytes readable (err=%v), peer wrote %d more bytes", e, sid, len(data), err, len(want))
+			if len(data) > len(want) || !bytes.Equal(data, want[:len(data)]) {
+				return muxVerdict{"bytes-wrong", fmt.Sprintf("after delivering everything in flight, %s reads %d bytes on stream %d that are not a prefix of what the peer wrote", e, len(data), sid)}
+			}
+			clean := !w.abnormal && !w.sesh[e].IsClosed() && !w.sesh[peer].IsClosed() && !w.closeAny[e][sid] && !w.conc.Unordered
+			if clean && len(data) < len(want) && !w.closeAny[peer][sid] {
+				return muxVerdict{"bytes-missing", fmt.Sprintf("after delivering everything in flight, %s can read only %d of the %d bytes the peer wrote on stream %d", e, len(data), len(want), sid)}
+			}
+			if clean && w.closedOK[peer][sid] {
+				if len(data) < len(want) {
+					return muxVerdict{"bytes-missing", fmt.Sprintf("the peer wrote %d bytes on stream %d and closed it; %s can read only %d", len(want), sid, e, len(data))}
+				}
+				if !errors.Is(err, ErrBrokenStream) {
+					return muxVerdict{"eof-missing", fmt.Sprintf("the peer closed stream %d after its data; %s reads all of it but then gets %v instead of the broken-stream error", sid, e, err)}
+				}
+			}
+		}
+	}
+	return muxVerdict{}
 }
 
 // C13 on the real bytes: per stream and direction the numbers on the wire are 0,1,2,... each used once
@@ -451,6 +565,13 @@ func (w *muxWorld) step(steps []muxStep, i int) muxVerdict {
 		return w.internalStep(steps, i)
 	}
 	w.addPicks(steps, i)
+	w.curEp = ev.E
+	if ev.A == "TimerRead" || ev.A == "TimerClose" {
+		w.curEp = w.conc.TimerEp
+	}
+	if ev.A == "TimerRead" || ev.A == "SessClose" || ev.A == "ConnFail" {
+		w.abnormal = true
+	}
 	switch ev.A {
 	case "OpenCheck":
 		if w.conc.Gates {
@@ -533,6 +654,9 @@ func (w *muxWorld) step(steps []muxStep, i int) muxVerdict {
 			return muxVerdict{}
 		}
 		synctest.Wait()
+		w.pickMu.Lock()
+		w.poolSize++
+		w.pickMu.Unlock()
 	case "Write":
 		return w.doWrite(steps, i)
 	case "CloseStream":
@@ -543,6 +667,10 @@ func (w *muxWorld) step(steps []muxStep, i int) muxVerdict {
 			return muxVerdict{"call-blocked", fmt.Sprintf("step %d: Stream.Close on %s/%d did not return", i, ev.E, ev.S)}
 		}
 		w.logf("step %d CloseStream(%s,%d) expected ok=%v observed err=%v", i, ev.E, ev.S, ev.Ok, call.err)
+		w.closeAny[ev.E][ev.S] = true
+		if call.err == nil {
+			w.closedOK[ev.E][ev.S] = true
+		}
 		if !ev.Ok && ev.C > 0 {
 			w.sendFail[ev.E][ev.S] = true
 		}
@@ -599,7 +727,21 @@ func (w *muxWorld) step(steps []muxStep, i int) muxVerdict {
 		}
 		w.logf("step %d SessClose(%s) expected first=%v observed err=%v", i, ev.E, ev.Ok, call.err)
 	case "ConnFail":
-		w.links[ev.C-1].Fail()
+		// a reset may hit inside a record: the reader still gets part of the head record of each direction
+		l := w.links[ev.C-1]
+		if w.conc.FaultCut > 0 {
+			for from := 0; from < 2; from++ {
+				if n := l.PendingHeadLen(from); n > 8 {
+					k := []int{0, 3, 5 + (n-5)/2, n - 3}[w.conc.FaultCut]
+					if w.conc.FaultCut == 2 && n > 60 {
+						k = 40
+					}
+					l.ReleaseBytes(from, k)
+				}
+			}
+			synctest.Wait()
+		}
+		l.Fail()
 		synctest.Wait()
 		w.logf("step %d ConnFail(%d)", i, ev.C)
 	case "TimerRead":
@@ -722,6 +864,9 @@ func (w *muxWorld) checkData(i int, e string, s int, got []int, data []byte, err
 		}
 	}
 	want := w.unitBytes(writer, s, got)
+	if bytes.Equal(data, want) {
+		w.readOff[e][s] += len(got)
+	}
 	if !bytes.Equal(data, want) {
 		kind := "bytes-wrong"
 		if len(data) < len(want) && bytes.Equal(data, want[:len(data)]) {
@@ -916,11 +1061,11 @@ func muxConcretisations0(idx int, all bool, unordered, singleplex bool, nc int) 
 	var out []muxConc
 	if all {
 		for mi, m := range methods {
-			out = append(out, muxConc{Method: m, Unordered: unordered, Singleplex: singleplex, NC: nc, SizeClass: (mi + idx) % 4, Key: "k"})
+			out = append(out, muxConc{Method: m, Unordered: unordered, Singleplex: singleplex, NC: nc, SizeClass: (mi + idx) % 4, Key: "k", FaultCut: (mi + idx/4) % 4})
 		}
 		return out
 	}
-	out = append(out, muxConc{Method: methods[idx%4], Unordered: unordered, Singleplex: singleplex, NC: nc, SizeClass: (idx / 4) % 4, Key: "k"})
+	out = append(out, muxConc{Method: methods[idx%4], Unordered: unordered, Singleplex: singleplex, NC: nc, SizeClass: (idx / 4) % 4, Key: "k", FaultCut: (idx / 2) % 4})
 	return out
 }
 
